@@ -65,6 +65,7 @@ static void setup(Runner &r, const Tier &t) {
     g_thor = t.thorough; g_roots.clear();
     struct FS { std::string f; std::vector<std::string> tx; };
     std::vector<FS> fs = { { gen_dir() + "/s_min.ttf", { "ab", "ba", "c", "abc" } }, { gen_dir() + "/s_full.ttf", { "cd", "c\xCC\x81", "de f", "a\xCC\x81\xCC\x80" } }     /* "cd": the advance of c is changed by a contextual rule; "c" + mark: the same glyph with its own advance */, { font_path("small.ttf"), { "abc", "cab", "aa", "b" } }, { gen_dir() + "/s_full_pb.ttf", { "f", "fd", "af", "cd e" } }, { gen_dir() + "/s_twoclass.ttf", { "cb", "b", "a", "ca" } },
+        { gen_dir() + "/s_full_excl.ttf", { "a\xCC\x81\xCC\x80", "e", "c\xCC\x81\xCC\x80", "ae" } }     /* every mark names glyph e as its collision exclusion glyph: the collision pass consults a glyph that the text need not contain (loaded on demand on lazy faces) */,
         { gen_dir() + "/s_full_badglyph.ttf", { "e", "ae f", "de", "ea\xCC\x81" } }     /* glyph e is unreadable: demand-loading faces substitute glyph 0 for it, on EVERY lookup (preloading faces refuse the font: those roots are skipped) */ };
     if (t.thorough) fs.push_back({ font_path("Padauk.ttf"), { "\xE1\x80\x80\xE1\x80\xBB\xE1\x80\xBD\xE1\x80\x94\xE1\x80\xBA", "\xE1\x80\x99\xE1\x80\xBC\xE1\x80\x94\xE1\x80\xBA", "ab" } });
     for (auto &f : fs) for (unsigned o : { 0u, 2u, 4u, 6u }) for (int h = 0; h < 2; ++h) g_roots.push_back({ f.f, o, h == 1, f.tx });
